@@ -1,6 +1,8 @@
 import DinoProofs.Lemmas.Grid
 import DinoProofs.Lemmas.GridFourier
 import DinoProofs.Lemmas.GridLinear
+import DinoProofs.Lemmas.GridEps
+import DinoGen.GridCert
 import Mathlib.Analysis.Real.Sqrt
 import Mathlib.Algebra.BigOperators.Field
 import Mathlib.Analysis.SpecialFunctions.Trigonometric.Basic
@@ -2121,5 +2123,348 @@ example (vor dv : List (List ℚ)) (hvor : Dom lyT 1 vor) (hdv : Dom lyT 1 dv) (
     vor dv hvor hdv B hBv hBd i j hj
 
 end examples
+
+/-! ## T2.6: Hyp-A / Hyp-B within `ε` from the unit fields, and kernel-checked certificates on live grids -/
+section T26units_eps
+variable {K : Type} [Field K] [LinearOrder K] [IsStrictOrderedRing K]
+
+/-- `(∇²x)_{ij} = x_{ij}·λ_j` with `λ_j` the `j`-th Laplacian eigenvalue (`0` outside the array) -/
+theorem ent2_laplacian_eig (ly : Layout) (r : K) (x : List (List K)) (i j : Nat) :
+    ent2 (laplacian ly r x) i j = ent2 x i j * ent (eigenvalues ly r) j := by
+  rw [ent2_laplacian, ent_eigenvalues]
+
+/-- the only non-zero entry of `∇²E_{ij}` is `λ_j`, at `(i, j)` -/
+theorem ent2_laplacian_unit (ly : Layout) (r : K) (i j : Nat) (hi : i < ly.rows) (hj : j < ly.cols) :
+    ent2 (laplacian ly r (unitM ly.rows ly.cols i j)) i j = ent (eigenvalues ly r) j := by
+  rw [ent2_laplacian_eig, ent2_unitM, if_pos ⟨⟨hi, hj⟩, rfl, rfl⟩, one_mul]
+
+/-- **Hyp-A within `ε` from unit fields** (ε-version of `hypA_of_units`, any ordered field): if `S` is linear and,
+ for every unit field `E_{ij}` of the domain (masked entries with `1 ≤ l < L − topEmpty`), the Hyp-A residual below
+ the top wavenumber is at most `δ·max|∇²E_{ij}|` (`= δ·|(∇²E_{ij})_{ij}|`), then on **every** field `ψ` of `Dom`
+ the residual is at most `(rows·cols)·δ·B` whenever `|∇²ψ| ≤ B` entry-wise — the hypothesis `hypA` of
+ `vor_div_roundtrip_eps` with `ε = rows·cols·δ` (number of unit arrays times the unit residual). -/
+theorem hypA_eps_of_units (ly : Layout) (r : K) (a b : List (List K)) (ha : IsMat a ly.rows ly.cols)
+    (hb : IsMat b ly.rows ly.cols) (T : Transforms K) (cosl : List K) (c : Bool)
+    (hS : LinMap ly.rows ly.cols ly.rows ly.cols (sandwich T cosl)) (δ : K) (hδ : 0 ≤ δ)
+    (hunit : ∀ i < ly.rows, ∀ j < ly.cols, (0 < j ∧ j + topEmpty c < ly.L ∧ ly.maskAt i j = true) →
+      ∀ p q, q + 1 < ly.L →
+        |ent2 (divSGrad ly r a b T cosl c (unitM ly.rows ly.cols i j)) p q
+          - ent2 (laplacian ly r (unitM ly.rows ly.cols i j)) p q|
+          ≤ δ * |ent2 (laplacian ly r (unitM ly.rows ly.cols i j)) i j|)
+    (ψ : List (List K)) (hψ : Dom ly (topEmpty c) ψ) (B : K)
+    (hB : ∀ i j, |ent2 (laplacian ly r ψ) i j| ≤ B) (p q : Nat) (hq : q + 1 < ly.L) :
+    |ent2 (divCosLatW ly r a b (sandwich T cosl (cosLatGradW ly r a b ψ c).1,
+        sandwich T cosl (cosLatGradW ly r a b ψ c).2) c) p q - ent2 (laplacian ly r ψ) p q|
+      ≤ ((ly.rows * ly.cols : ℕ) : K) * δ * B := by
+  apply linMap_ext_eps ly.rows ly.cols ly.rows ly.cols (divSGrad ly r a b T cosl c) (laplacian ly r)
+    (linMap_divSGrad ly r a b ha hb T cosl c hS) (linMap_laplacian ly r)
+    (fun i j => 0 < j ∧ j + topEmpty c < ly.L ∧ ly.maskAt i j = true)
+    (fun _ j => ent (eigenvalues ly r) j) p q δ hδ
+    (fun i hi j hj hP => by
+      have := hunit i hi j hj hP p q hq
+      rwa [ent2_laplacian_unit ly r i j hi hj] at this) ψ hψ.1
+  · intro i j hP
+    by_cases h1 : j = 0 ∨ ly.L ≤ j + topEmpty c
+    · exact hψ.2.1 i j h1
+    · apply hψ.2.2 i j
+      cases hm : ly.maskAt i j
+      · rfl
+      · exact absurd ⟨by omega, by omega, hm⟩ hP
+  · intro i _ j _
+    rw [← ent2_laplacian_eig]
+    exact hB i j
+
+/-- **Hyp-B within `ε` from unit fields** (ε-version of `hypB_of_units`) -/
+theorem hypB_eps_of_units (ly : Layout) (r : K) (a b : List (List K)) (ha : IsMat a ly.rows ly.cols)
+    (hb : IsMat b ly.rows ly.cols) (T : Transforms K) (cosl : List K) (c : Bool)
+    (hS : LinMap ly.rows ly.cols ly.rows ly.cols (sandwich T cosl)) (δ : K) (hδ : 0 ≤ δ)
+    (hunit : ∀ i < ly.rows, ∀ j < ly.cols, (0 < j ∧ j + topEmpty c < ly.L ∧ ly.maskAt i j = true) →
+      ∀ p q, q + 1 < ly.L →
+        |ent2 (curlSGrad ly r a b T cosl c (unitM ly.rows ly.cols i j)) p q|
+          ≤ δ * |ent2 (laplacian ly r (unitM ly.rows ly.cols i j)) i j|)
+    (ψ : List (List K)) (hψ : Dom ly (topEmpty c) ψ) (B : K)
+    (hB : ∀ i j, |ent2 (laplacian ly r ψ) i j| ≤ B) (p q : Nat) (hq : q + 1 < ly.L) :
+    |ent2 (curlCosLatW ly r a b (sandwich T cosl (cosLatGradW ly r a b ψ c).1,
+        sandwich T cosl (cosLatGradW ly r a b ψ c).2) c) p q| ≤ ((ly.rows * ly.cols : ℕ) : K) * δ * B := by
+  have hz : LinMap ly.rows ly.cols ly.rows ly.cols (fun x : List (List K) => mscale 0 x) :=
+    ⟨fun x hx => isMat_mscale 0 x _ _ hx,
+     fun x y hx hy => by
+       apply mat_ext _ _ _ _ (isMat_mscale 0 _ _ _ (isMat_madd x y _ _ hx hy))
+         (isMat_madd _ _ _ _ (isMat_mscale 0 x _ _ hx) (isMat_mscale 0 y _ _ hy))
+       intro i _ j _
+       rw [ent2_madd _ _ _ _ i j (isMat_mscale 0 x _ _ hx) (isMat_mscale 0 y _ _ hy), ent2_mscale,
+         ent2_mscale, ent2_mscale]
+       ring,
+     fun x hx => by
+       apply mat_ext _ _ _ _ (isMat_mscale 0 _ _ _ (isMat_mneg x _ _ hx))
+         (isMat_mneg _ _ _ (isMat_mscale 0 x _ _ hx))
+       intro i _ j _
+       rw [ent2_mneg, ent2_mscale, ent2_mscale]
+       ring,
+     fun s x hx => by
+       apply mat_ext _ _ _ _ (isMat_mscale 0 _ _ _ (isMat_mscale s x _ _ hx))
+         (isMat_mscale s _ _ _ (isMat_mscale 0 x _ _ hx))
+       intro i _ j _
+       rw [ent2_mscale, ent2_mscale, ent2_mscale, ent2_mscale]
+       ring⟩
+  have := linMap_ext_eps ly.rows ly.cols ly.rows ly.cols (curlSGrad ly r a b T cosl c) (fun x => mscale 0 x)
+    (linMap_curlSGrad ly r a b ha hb T cosl c hS) hz
+    (fun i j => 0 < j ∧ j + topEmpty c < ly.L ∧ ly.maskAt i j = true)
+    (fun _ j => ent (eigenvalues ly r) j) p q δ hδ
+    (fun i hi j hj hP => by
+      have := hunit i hi j hj hP p q hq
+      rw [ent2_laplacian_unit ly r i j hi hj] at this
+      rwa [ent2_mscale, zero_mul, sub_zero]) ψ hψ.1
+    (by
+      intro i j hP
+      by_cases h1 : j = 0 ∨ ly.L ≤ j + topEmpty c
+      · exact hψ.2.1 i j h1
+      · apply hψ.2.2 i j
+        cases hm : ly.maskAt i j
+        · rfl
+        · exact absurd ⟨by omega, by omega, hm⟩ hP) B
+    (by
+      intro i _ j _
+      rw [← ent2_laplacian_eig]
+      exact hB i j)
+  rw [ent2_mscale, zero_mul, sub_zero] at this
+  exact this
+
+end T26units_eps
+
+/-! ### what a kernel-checked `GCert` (`Dino/GridCert.lean`, `DinoGen/GridCert/*.lean`) means over ℚ -/
+section gcert
+open Dino.Grid.GCert
+
+theorem dy_ne_zero (e : Nat) (n : Int) (hn : n ≠ 0) : dy e n ≠ 0 := by
+  unfold dy
+  exact div_ne_zero (Int.cast_ne_zero.mpr hn) (Nat.cast_ne_zero.mpr (pow_ne_zero e (by norm_num)))
+
+theorem isMat_map_dy (x : List (List Int)) (e R C : Nat) (hl : x.length = R)
+    (hr : ∀ row ∈ x, row.length = C) : IsMat (x.map fun row => row.map (dy e)) R C := by
+  refine ⟨by simp [hl], ?_⟩
+  intro row hrow
+  simp only [List.mem_map] at hrow
+  obtain ⟨r0, h0, rfl⟩ := hrow
+  simp [hr r0 h0]
+
+/-- the facts about the arrays of a certificate that the wind theorems need -/
+structure GoodCert (c : GCert) : Prop where
+  r_ne : c.r ≠ 0
+  ha : IsMat c.aQ c.ly.rows c.ly.cols
+  hb : IsMat c.bQ c.ly.rows c.ly.cols
+  hbasis : BasisFor c.ly c.basis c.N c.J
+  hcl : c.coslQ.length = c.J
+  hcos : ∀ x ∈ c.coslQ, x ≠ 0
+
+theorem goodCert_of_shapeOk (c : GCert) (h : c.shapeOk = true) : GoodCert c := by
+  simp only [GCert.shapeOk, Bool.and_eq_true, decide_eq_true_eq, List.all_eq_true, Bool.or_eq_true,
+    Bool.not_eq_true'] at h
+  obtain ⟨⟨⟨⟨⟨⟨⟨⟨⟨⟨⟨⟨hr, hal⟩, har⟩, hbl⟩, hbr⟩, hfl⟩, hfr⟩, hpl⟩, hpar⟩, hpp⟩, hwl⟩, hcl⟩, hcn⟩ := h
+  refine ⟨dy_ne_zero _ _ hr, isMat_map_dy _ _ _ _ hal har, isMat_map_dy _ _ _ _ hbl hbr, ?_, ?_, ?_⟩
+  · have hsh : ∀ R, c.p.length = R → SH.Shaped c.basis c.N R c.J c.ly.cols := by
+      intro R hR
+      refine ⟨by simp [GCert.basis, hfl], by simp [GCert.basis, hR], ?_, ?_, by simp [GCert.basis, hwl]⟩
+      · intro pm hpm
+        simp only [GCert.basis, List.mem_map] at hpm
+        obtain ⟨t, ht, rfl⟩ := hpm
+        simp [(hpp t ht).1]
+      · intro pm hpm pj hpj
+        simp only [GCert.basis, List.mem_map] at hpm
+        obtain ⟨t, ht, rfl⟩ := hpm
+        simp only [List.mem_map] at hpj
+        obtain ⟨row, hrow, rfl⟩ := hpj
+        simp [(hpp t ht).2 row hrow]
+    unfold BasisFor
+    cases hf : c.ly.fast
+    · rw [hf] at hpl
+      simp only [Bool.false_eq_true, if_false] at hpl ⊢
+      exact hsh _ hpl
+    · rw [hf] at hpl hpar
+      simp only [if_true] at hpl ⊢
+      rcases hpar with h0 | h0
+      · exact absurd h0 (by simp)
+      · exact ⟨h0, hsh _ hpl⟩
+  · simp [GCert.coslQ, hcl]
+  · intro x hx
+    simp only [GCert.coslQ, List.mem_map] at hx
+    obtain ⟨n, hn, rfl⟩ := hx
+    exact dy_ne_zero _ _ (hcn n hn)
+
+/-- `S` of a certified grid is linear (from the linearity of the model's own transforms) -/
+theorem GoodCert.sandwich_linMap {c : GCert} (g : GoodCert c) :
+    LinMap c.ly.rows c.ly.cols c.ly.rows c.ly.cols (sandwich c.T c.coslQ) :=
+  sandwich_shTransforms c.ly c.basis c.N c.J c.coslQ g.hbasis g.hcl g.hcos
+
+theorem unitQ_eq_unitM (R C i j : Nat) : GCert.unitQ R C i j = unitM (K := ℚ) R C i j := rfl
+
+theorem absQ_eq_abs (x : ℚ) : GCert.absQ x = |x| := by
+  unfold GCert.absQ
+  split
+  · rw [abs_of_neg ‹_›]
+  · rw [abs_of_nonneg (not_lt.mp ‹_›)]
+
+theorem abs_le_of_within (t v : ℚ) (h : GCert.within t v = true) : |v| ≤ t := by
+  simp only [GCert.within, Bool.and_eq_true, decide_eq_true_eq] at h
+  exact abs_le.mpr h
+
+/-- the Boolean test on the unit fields, read over ℚ: residuals of Hyp-A and Hyp-B of every unit field of the domain
+ are at most `δ·|(∇²E_{ij})_{ij}|` below the top wavenumber, in every entry -/
+theorem units_of_hypOk (c : GCert) (cl : Bool) (δ : ℚ) (hδ : 0 ≤ δ) (g : GoodCert c) (h : c.hypOk cl δ = true)
+    (i : Nat) (hi : i < c.ly.rows) (j : Nat) (hj : j < c.ly.cols)
+    (hP : 0 < j ∧ j + topEmpty cl < c.ly.L ∧ c.ly.maskAt i j = true) (p q : Nat) (hq : q + 1 < c.ly.L) :
+    |ent2 (divSGrad c.ly c.r c.aQ c.bQ c.T c.coslQ cl (unitM c.ly.rows c.ly.cols i j)) p q
+        - ent2 (laplacian c.ly c.r (unitM c.ly.rows c.ly.cols i j)) p q|
+        ≤ δ * |ent2 (laplacian c.ly c.r (unitM c.ly.rows c.ly.cols i j)) i j|
+    ∧ |ent2 (curlSGrad c.ly c.r c.aQ c.bQ c.T c.coslQ cl (unitM c.ly.rows c.ly.cols i j)) p q|
+        ≤ δ * |ent2 (laplacian c.ly c.r (unitM c.ly.rows c.ly.cols i j)) i j| := by
+  have hS := g.sandwich_linMap
+  have hE := isMat_unitM (K := ℚ) c.ly.rows c.ly.cols i j
+  have hD := (linMap_divSGrad c.ly c.r c.aQ c.bQ g.ha g.hb c.T c.coslQ cl hS).shape _ hE
+  have hC := (linMap_curlSGrad c.ly c.r c.aQ c.bQ g.ha g.hb c.T c.coslQ cl hS).shape _ hE
+  have hL := isMat_laplacian c.ly c.r _ hE
+  by_cases hp : p < c.ly.rows
+  · -- extract the test of this unit field, this output entry
+    have h1 : c.rowOk cl δ i = true := by
+      unfold GCert.hypOk at h
+      rw [List.all_eq_true] at h
+      exact h i (List.mem_range.mpr hi)
+    have h2 : c.unitOk cl δ i j = true := by
+      unfold GCert.rowOk at h1
+      rw [List.all_eq_true] at h1
+      have := h1 j (List.mem_range.mpr hj)
+      have hin : GCert.inDom c.ly (if cl = true then 2 else 1) i j = true := by
+        have h3 : j + (if cl = true then 2 else 1) < c.ly.L := hP.2.1
+        simp [GCert.inDom, hP.1, h3, hP.2.2]
+      rw [hin] at this
+      simpa using this
+    have h3 : GCert.within (δ * GCert.absQ (ent2 (laplacian c.ly c.r (unitM c.ly.rows c.ly.cols i j)) i j))
+          (ent2 (msub (divSGrad c.ly c.r c.aQ c.bQ c.T c.coslQ cl (unitM c.ly.rows c.ly.cols i j))
+            (laplacian c.ly c.r (unitM c.ly.rows c.ly.cols i j))) p q) = true
+        ∧ GCert.within (δ * GCert.absQ (ent2 (laplacian c.ly c.r (unitM c.ly.rows c.ly.cols i j)) i j))
+          (ent2 (curlSGrad c.ly c.r c.aQ c.bQ c.T c.coslQ cl (unitM c.ly.rows c.ly.cols i j)) p q) = true := by
+      unfold GCert.unitOk at h2
+      simp only [List.all_eq_true, List.mem_range, Bool.and_eq_true] at h2
+      exact h2 p hp q (by omega)
+    rw [absQ_eq_abs] at h3
+    have hA := abs_le_of_within _ _ h3.1
+    have hB := abs_le_of_within _ _ h3.2
+    rw [ent2_msub _ _ _ _ p q hD hL] at hA
+    exact ⟨hA, hB⟩
+  · have z1 := ent2_of_row_le (divSGrad c.ly c.r c.aQ c.bQ c.T c.coslQ cl (unitM c.ly.rows c.ly.cols i j)) p q
+      (by rw [hD.1]; omega)
+    have z2 := ent2_of_row_le (curlSGrad c.ly c.r c.aQ c.bQ c.T c.coslQ cl (unitM c.ly.rows c.ly.cols i j)) p q
+      (by rw [hC.1]; omega)
+    have z3 := ent2_of_row_le (laplacian c.ly c.r (unitM c.ly.rows c.ly.cols i j)) p q (by rw [hL.1]; omega)
+    rw [z1, z2, z3, sub_zero, abs_zero]
+    exact ⟨mul_nonneg hδ (abs_nonneg _), mul_nonneg hδ (abs_nonneg _)⟩
+
+/-- **T2.6 on a certified live grid (all fields of `Dom`, ℚ).**  If the kernel has checked `shapeOk` and
+ `hypOk cl δ` for the arrays of a live `Grid` (radius, recurrence weights, basis arrays, `cos_lat`, read as exact
+ rationals), then for **every** pair `(ζ, δ)` of `Dom ly (topEmpty cl)` bounded entry-wise by `B` the model's
+ `uv_nodal_to_vor_div_modal ∘ vor_div_to_uv_nodal`, evaluated exactly on those arrays, returns the pair up to
+ `2·(rows·cols·δ)·B` in every coefficient below the top wavenumber: both hypotheses of `vor_div_roundtrip_eps`
+ are kernel-checked (`hypA_eps_of_units`, `hypB_eps_of_units`), none is sampled. -/
+theorem roundtrip_of_gcert (c : GCert) (cl : Bool) (δ : ℚ) (hδ : 0 ≤ δ) (hs : c.shapeOk = true)
+    (hh : c.hypOk cl δ = true) (vor dv : List (List ℚ)) (hvor : Dom c.ly (topEmpty cl) vor)
+    (hdv : Dom c.ly (topEmpty cl) dv) (B : ℚ) (hBv : ∀ i j, |ent2 vor i j| ≤ B) (hBd : ∀ i j, |ent2 dv i j| ≤ B)
+    (i j : Nat) (hj : j + 1 < c.ly.L) :
+    |ent2 (uvNodalToVorDivModalW c.ly c.r c.aQ c.bQ c.T c.coslQ
+        (vorDivToUvNodalW c.ly c.r c.aQ c.bQ c.T c.coslQ vor dv cl).1
+        (vorDivToUvNodalW c.ly c.r c.aQ c.bQ c.T c.coslQ vor dv cl).2 cl).1 i j - ent2 vor i j|
+      ≤ 2 * (((c.ly.rows * c.ly.cols : ℕ) : ℚ) * δ) * B
+    ∧ |ent2 (uvNodalToVorDivModalW c.ly c.r c.aQ c.bQ c.T c.coslQ
+        (vorDivToUvNodalW c.ly c.r c.aQ c.bQ c.T c.coslQ vor dv cl).1
+        (vorDivToUvNodalW c.ly c.r c.aQ c.bQ c.T c.coslQ vor dv cl).2 cl).2 i j - ent2 dv i j|
+      ≤ 2 * (((c.ly.rows * c.ly.cols : ℕ) : ℚ) * δ) * B := by
+  have g := goodCert_of_shapeOk c hs
+  have hS := g.sandwich_linMap
+  exact vor_div_roundtrip_eps c.ly c.r g.r_ne c.aQ c.bQ g.ha g.hb c.T c.coslQ g.hcos cl hS.shape hS.add hS.neg
+    (((c.ly.rows * c.ly.cols : ℕ) : ℚ) * δ)
+    (fun ψ hψ B hB p q hq => hypA_eps_of_units c.ly c.r c.aQ c.bQ g.ha g.hb c.T c.coslQ cl hS δ hδ
+      (fun i hi j hj hP p q hq => (units_of_hypOk c cl δ hδ g hh i hi j hj hP p q hq).1) ψ hψ B hB p q hq)
+    (fun ψ hψ B hB p q hq => hypB_eps_of_units c.ly c.r c.aQ c.bQ g.ha g.hb c.T c.coslQ cl hS δ hδ
+      (fun i hi j hj hP p q hq => (units_of_hypOk c cl δ hδ g hh i hi j hj hP p q hq).2) ψ hψ B hB p q hq)
+    vor dv hvor hdv B hBv hBd i j hj
+
+end gcert
+
+/-! ### the generated grids (`DinoGen/GridCert/*.lean`, regenerated from the live code on every run)
+
+ For each grid `h` of the family the kernel-checked certificates `h_shape`, `h_hyp0`, `h_hyp1` are turned into the
+ round-trip bound for **every** pair of fields of `Dom`, both clip settings: `ε = rows·cols·2⁻⁴⁰`, i.e. the round
+ trip is within `2·ε·max(|ζ|,|δ|)` of the identity below the top wavenumber. -/
+section generated_grids
+open DinoGen.GridCert
+
+/-- the statement proved for each certified grid: on all of `Dom` the wind round trip of the model, evaluated
+ exactly (ℚ) on the live arrays of the certificate, is within `2·ε·B` of the identity below the top wavenumber -/
+def GridRoundtrip (c : GCert) (cl : Bool) (ε : ℚ) : Prop :=
+  ∀ (vor dv : List (List ℚ)), Dom c.ly (topEmpty cl) vor → Dom c.ly (topEmpty cl) dv →
+    ∀ B : ℚ, (∀ i j, |ent2 vor i j| ≤ B) → (∀ i j, |ent2 dv i j| ≤ B) → ∀ i j, j + 1 < c.ly.L →
+    |ent2 (uvNodalToVorDivModalW c.ly c.r c.aQ c.bQ c.T c.coslQ
+        (vorDivToUvNodalW c.ly c.r c.aQ c.bQ c.T c.coslQ vor dv cl).1
+        (vorDivToUvNodalW c.ly c.r c.aQ c.bQ c.T c.coslQ vor dv cl).2 cl).1 i j - ent2 vor i j| ≤ 2 * ε * B
+    ∧ |ent2 (uvNodalToVorDivModalW c.ly c.r c.aQ c.bQ c.T c.coslQ
+        (vorDivToUvNodalW c.ly c.r c.aQ c.bQ c.T c.coslQ vor dv cl).1
+        (vorDivToUvNodalW c.ly c.r c.aQ c.bQ c.T c.coslQ vor dv cl).2 cl).2 i j - ent2 dv i j| ≤ 2 * ε * B
+
+theorem gridRoundtrip_of_gcert (c : GCert) (cl : Bool) (δ : ℚ) (hδ : 0 ≤ δ) (hs : c.shapeOk = true)
+    (hh : c.hypOk cl δ = true) : GridRoundtrip c cl (((c.ly.rows * c.ly.cols : ℕ) : ℚ) * δ) :=
+  fun vor dv hvor hdv B hBv hBd i j hj => roundtrip_of_gcert c cl δ hδ hs hh vor dv hvor hdv B hBv hBd i j hj
+
+/-- `h1`: `RealSphericalHarmonics`, `M = 3`, `L = 4`, `8 × 4` Gauss nodes, radius 1 (modal `5 × 4`) -/
+theorem roundtrip_h1 (cl : Bool) : GridRoundtrip h1 cl (20 * (1 / 2 ^ 40)) := by
+  have h := gridRoundtrip_of_gcert h1 cl (1 / 2 ^ 40) (by norm_num) h1_shape (by cases cl; exact h1_hyp0; exact h1_hyp1)
+  exact h
+
+/-- `h2`: `RealSphericalHarmonics`, `M = 2`, `L = 4`, `5 × 4` Gauss nodes, radius 6.37, longitude offset 0.3 (modal `3 × 4`) -/
+theorem roundtrip_h2 (cl : Bool) : GridRoundtrip h2 cl (12 * (1 / 2 ^ 40)) := by
+  have h := gridRoundtrip_of_gcert h2 cl (1 / 2 ^ 40) (by norm_num) h2_shape (by cases cl; exact h2_hyp0; exact h2_hyp1)
+  exact h
+
+/-- `h3`: `FastSphericalHarmonics` with `base_shape_multiple = 4`, `M = 2`, `L = 3`, `8 × 4` Gauss nodes, radius 0.54 (modal `8 × 4`: four padding rows, one padding column; `Dom ly 2` is `{0}` here) -/
+theorem roundtrip_h3 (cl : Bool) : GridRoundtrip h3 cl (32 * (1 / 2 ^ 40)) := by
+  have h := gridRoundtrip_of_gcert h3 cl (1 / 2 ^ 40) (by norm_num) h3_shape (by cases cl; exact h3_hyp0; exact h3_hyp1)
+  exact h
+
+/-- `h4`: `RealSphericalHarmonics`, `M = 2`, `L = 3`, `5 × 6` equiangular nodes, radius 2 (modal `3 × 3`; `Dom ly 2` is `{0}` here) -/
+theorem roundtrip_h4 (cl : Bool) : GridRoundtrip h4 cl (9 * (1 / 2 ^ 40)) := by
+  have h := gridRoundtrip_of_gcert h4 cl (1 / 2 ^ 40) (by norm_num) h4_shape (by cases cl; exact h4_hyp0; exact h4_hyp1)
+  exact h
+
+/-- `h5`: `FastSphericalHarmonics`, `M = 2`, `L = 4`, `6 × 4` Gauss nodes, radius 1, longitude offset 0.7 (modal `4 × 4`, row 1 = `m = −0` masked) -/
+theorem roundtrip_h5 (cl : Bool) : GridRoundtrip h5 cl (16 * (1 / 2 ^ 40)) := by
+  have h := gridRoundtrip_of_gcert h5 cl (1 / 2 ^ 40) (by norm_num) h5_shape (by cases cl; exact h5_hyp0; exact h5_hyp1)
+  exact h
+
+/-- non-vacuity: the number of unit fields of `Dom` that each `hypOk` certificate covers (clip = False, clip = True) -/
+example : (h1.domCount false, h1.domCount true) = (8, 3) := by decide +kernel
+example : (h2.domCount false, h2.domCount true) = (6, 3) := by decide +kernel
+example : (h3.domCount false, h3.domCount true) = (3, 0) := by decide +kernel
+example : (h4.domCount false, h4.domCount true) = (3, 0) := by decide +kernel
+example : (h5.domCount false, h5.domCount true) = (6, 3) := by decide +kernel
+
+/-- a field of `Dom h1.ly 1` with non-zero entries in every modal row (`m = ±2` included) … -/
+def vorH : List (List ℚ) := [[0, 1, 2, 0], [0, 1, -1, 0], [0, 2, 1, 0], [0, 0, 3, 0], [0, 0, 1, 0]]
+theorem dom_vorH : Dom h1.ly 1 vorH := (domB_iff h1.ly 1 vorH).mp (by decide +kernel)
+theorem bound_vorH : ∀ i j, |ent2 vorH i j| ≤ 3 := by
+  have h : ∀ i < 5, ∀ j < 4, |ent2 vorH i j| ≤ 3 := by decide +kernel
+  intro i j
+  by_cases hi : i < 5
+  · by_cases hj : j < 4
+    · exact h i hi j hj
+    · rw [ent2_of_col_le vorH 5 4 i j ⟨rfl, by decide +kernel⟩ (by omega)]; norm_num
+  · rw [ent2_of_row_le vorH i j (by show 5 ≤ i; omega)]; norm_num
+
+/-- … and `roundtrip_h1` on it: the exact rational round trip on the live arrays of grid `h1` returns the pair
+ `(vorH, vorH)` up to `2·20·2⁻⁴⁰·3 < 1.1·10⁻¹⁰` in the entry `(m, l) = (+2, 2)` -/
+example : |ent2 (uvNodalToVorDivModalW h1.ly h1.r h1.aQ h1.bQ h1.T h1.coslQ
+      (vorDivToUvNodalW h1.ly h1.r h1.aQ h1.bQ h1.T h1.coslQ vorH vorH false).1
+      (vorDivToUvNodalW h1.ly h1.r h1.aQ h1.bQ h1.T h1.coslQ vorH vorH false).2 false).1 3 2 - 3|
+    ≤ 2 * (20 * (1 / 2 ^ 40)) * 3 :=
+  (roundtrip_h1 false vorH vorH dom_vorH dom_vorH 3 bound_vorH bound_vorH 3 2 (by decide)).1
+
+end generated_grids
 
 end Dino.C02
